@@ -146,6 +146,13 @@ def same_array(a, b, dtype=True):
     if a.dtype.kind in "mM" or b.dtype.kind in "mM":
         # dates / durations: the same unit and the same 64-bit counts (NaT is one particular count)
         return a.dtype == b.dtype and bool(np.array_equal(a.view(np.int64), b.view(np.int64)))
+    if a.dtype.kind == "c" or b.dtype.kind == "c":
+        # part by part: a NaN in the real part of one cell is not "equal" to a NaN in the imaginary part of the other
+        try:
+            a_, b_ = np.asarray(a, dtype=np.result_type(a.dtype, np.complex64)), np.asarray(b, dtype=np.result_type(b.dtype, np.complex64))
+            return bool(np.array_equal(a_.real, b_.real, equal_nan=True) and np.array_equal(a_.imag, b_.imag, equal_nan=True))
+        except TypeError:
+            return bool(np.array_equal(a, b))
     if a.dtype.kind in "fc" or b.dtype.kind in "fc":
         try:
             return bool(np.array_equal(a, b, equal_nan=True))
